@@ -15,13 +15,14 @@ def text_pipeline(run, focus):
     quick = run.tier == "quick"
     out = run.out
     mm = 2 if quick else 3
+    emp = "TRUE" if focus == "C06" else "FALSE"     # C06 covers empty members after the first, C17 asks for >= 1 vertex per member
     p = os.path.join(out, "MC.cfg")
     with open(p, "w") as f:
-        f.write("SPECIFICATION Spec\nCHECK_DEADLOCK FALSE\nCONSTANTS\n  MaxM = %d\nINVARIANT JsonOK\nINVARIANT WktOK\n" % mm)
+        f.write("SPECIFICATION Spec\nCHECK_DEADLOCK FALSE\nCONSTANTS\n  MaxM = %d\n  Empties = %s\nINVARIANT JsonOK\nINVARIANT WktOK\n" % (mm, emp))
     run.tlc("mc_recognisers", SPEC, "TextMC", p, workers=8, timeout=3000)
     p = os.path.join(out, "Gen.cfg")
     with open(p, "w") as f:
-        f.write("SPECIFICATION GenSpec\nCHECK_DEADLOCK FALSE\nCONSTANTS\n  MaxM = %d\n" % (3 if quick else 3))
+        f.write("SPECIFICATION GenSpec\nCHECK_DEADLOCK FALSE\nCONSTANTS\n  MaxM = %d\n  Empties = %s\n" % (3, emp))
     cp = os.path.join(out, "cases.ndjson")
     ncases = run.gen("gen", SPEC, "TextGen", p, cp, workers=1, timeout=3000)
     tr1 = os.path.join(out, "trace_replay.ndjson")
@@ -51,7 +52,7 @@ def text_pipeline(run, focus):
             s = [json.loads(x) for x in lines[40:42]]
             run.samples = s
     run.distinct_nontrivial = len(ntriv)
-    run.rule = ("TLC enumerates geometries of the supported types with member counts 1-3 over ten adversarial finite values (-0, "
+    run.rule = ("TLC enumerates geometries of the supported types with member counts 1-3 (C06: also empty members after a non-empty first one) over ten adversarial finite values (-0, "
                 "subnormal, 17-digit, 1e21, 1e-7, max float), unsupported types and non-finite coordinates; seeded random geometries "
                 "with random finite bit patterns. Non-trivial = a structure with >= 2 members (hand-assembled separators exercised)")
     run.assumptions = ["the harness lexer (hand-written, math/big decimal->binary rounding) turns the produced text into tokens; "
